@@ -15,7 +15,7 @@ func init() {
 		ID:      "C13",
 		Modules: []string{""},
 		Explanation: "Static rules on the v1 string classifier: (R13.1) regexp.MustCompile* is applied only to compile-time constants anywhere in the root module, so registering a value can never panic in the regexp compiler, and a value that is compiled is first passed through regexp.QuoteMeta; " +
-			"(R13.2) every Match pushed on a result queue has a Confidence that is the constant 1.0 or is dominated by a `> 0` test; (R13.3) the length pre-filter admits a candidate whose ratio equals the threshold (inclusive comparison), so exact copies are not dropped at threshold 1.0. " +
+			"(R13.2) every Match pushed on a result queue has a Confidence that is the constant 1.0 or is dominated by a `> 0` test; (R13.3) the length pre-filter admits a candidate whose ratio equals the threshold (inclusive comparison), so exact copies are not dropped at threshold 1.0; (R13.4) in the exact-occurrence shortcut the token that starts an occurrence can also be recognised as the token that ends it (one-token values). " +
 			"Necessary conditions only: exact Offset/Extent of the occurrence shortcut and the <= 1 bound are numeric behaviour and are not decided.",
 		Run: runC13,
 	})
@@ -96,6 +96,9 @@ func runC13(c *Ctx) {
 		c.R.Check(ok, "R13.2", key+": Confidence was tested > 0 on every path", p.Pos(lit.alloc.Pos()), "dominating conf > 0.0", "a match whose confidence may be 0 (or negative) is queued: reported confidences must lie in (0,1]")
 	}
 	c.R.RequireMin("R13.2", "Match literals with a Confidence", n, 2)
+
+	// R13.4 the exact-occurrence shortcut tests the start token also as the end token
+	checkOccurrenceShortcut(c, p)
 
 	// R13.3
 	if fn := p.Func(scPkg, "(*matcher).withinConfidenceThreshold"); c.R.Anchor(fn != nil, "stringclassifier.(*matcher).withinConfidenceThreshold") {
@@ -270,4 +273,100 @@ func checkCommonWordsGate(c *Ctx, p *core.Prog) {
 		c.R.OK("R16.2", "the common-words gate is case-insensitive wherever it sees raw text", "classifier.go", fmt.Sprintf("%d patterns, %d call sites (%d on raw text)", len(pats), nCalls, rawCallers))
 	}
 	c.R.RequireMin("R16.2", "common-word patterns", len(pats), 2)
+}
+
+// checkOccurrenceShortcut: R13.4. In the loop that converts a regexp occurrence [a0,a1) into a token
+// range, two loop-carried integers are assigned the loop index: `start` under `tok.Offset == a0` and
+// `end` under the end test. For a known value of one token the same token starts and ends the
+// occurrence, so some path through one iteration must perform both assignments.
+func checkOccurrenceShortcut(c *Ctx, p *core.Prog) {
+	fm := p.Func(scPkg, "(*matcher).findMatches")
+	if !c.R.Anchor(fm != nil, "stringclassifier.(*matcher).findMatches") {
+		return
+	}
+	// the MatchRange literal built from the two token indices
+	n := 0
+	for _, f := range core.WithAnon(fm) {
+		for _, lit := range structLits([]*ssa.Function{f}, "searchset.MatchRange") {
+			ts, te := lit.fields["TargetStart"], lit.fields["TargetEnd"]
+			if ts == nil || te == nil {
+				continue
+			}
+			// TargetEnd = end + 1
+			var endV ssa.Value = te
+			if bo, ok := te.(*ssa.BinOp); ok && bo.Op == token.ADD {
+				endV = bo.X
+			}
+			sp, ok1 := ts.(*ssa.Phi)
+			ep, ok2 := endV.(*ssa.Phi)
+			if !ok1 || !ok2 {
+				continue
+			}
+			n++
+			// blocks (inside the token loop) from which the loop index flows into each phi web
+			sb := assignBlocks(sp)
+			eb := assignBlocks(ep)
+			both := false
+			for _, b1 := range sb {
+				for _, b2 := range eb {
+					if b1 == b2 || reachesForward(b1, b2) {
+						both = true
+					}
+				}
+			}
+			c.R.Check(both, "R13.4", "findMatches: the token that starts an exact occurrence is also tested as its last token", p.Pos(lit.alloc.Pos()),
+				"an iteration can assign both the first and the last token index", "the end test is skipped for the token that starts the occurrence (else-if): for a known value of a single token the last token index is taken from a later token or stays 0, so the reported extent is wrong or the byte range is inverted (slice bounds panic)")
+		}
+	}
+	c.R.RequireMin("R13.4", "token ranges built by the occurrence shortcut", n, 1)
+}
+
+// assignBlocks: the blocks whose outgoing edge carries a fresh (non-phi, non-constant) value into the phi web.
+func assignBlocks(phi *ssa.Phi) []*ssa.BasicBlock {
+	var out []*ssa.BasicBlock
+	seen := map[*ssa.Phi]bool{}
+	var walk func(p *ssa.Phi)
+	walk = func(p *ssa.Phi) {
+		if seen[p] {
+			return
+		}
+		seen[p] = true
+		for i, e := range p.Edges {
+			switch x := e.(type) {
+			case *ssa.Phi:
+				walk(x)
+			case *ssa.Const:
+			default:
+				// the value is produced in (or before) the predecessor: the assignment happens on that edge
+				out = append(out, p.Block().Preds[i])
+			}
+		}
+	}
+	walk(phi)
+	return out
+}
+
+// reachesForward: b2 is reachable from b1 without taking a back edge (within one loop iteration).
+func reachesForward(b1, b2 *ssa.BasicBlock) bool {
+	seen := map[*ssa.BasicBlock]bool{}
+	var dfs func(b *ssa.BasicBlock) bool
+	dfs = func(b *ssa.BasicBlock) bool {
+		if b == b2 {
+			return true
+		}
+		if seen[b] {
+			return false
+		}
+		seen[b] = true
+		for _, s := range b.Succs {
+			if s.Dominates(b) {
+				continue // back edge
+			}
+			if dfs(s) {
+				return true
+			}
+		}
+		return false
+	}
+	return dfs(b1)
 }
